@@ -191,8 +191,8 @@ func execHistory(c *lib.Chain, h *History, r *lib.Rand, fixed []Op, rep *lib.Rep
 	defer func() { c.Ctx = base }()
 
 	w := NewWorld(c, h.Spec, h.Seed)
-	g := &Gen{R: r, W: w, Prop: prop, AvoidKF: h.Avoid}
 	mon := newMonitor(w, rep, h)
+	g := &Gen{R: r, W: w, Prop: prop, AvoidKF: h.Avoid, Mon: mon}
 
 	init := w.cells(c.Ctx)
 	initCoq := w.initCoq(init)
